@@ -446,8 +446,10 @@ Proof. intros H Hr.
 (* on ANY case (any kind, any input, any observation): if code 1 is absent - the implementation did what the model does - then
    no code at all is produced: the specification-level monitors (code 2) never alarm on behaviour the model allows, and
    "agrees with the model on this input" implies "satisfies the monitored property on this input" *)
-Lemma agreement_no_alarm_l c : no_code 1%N (check_case c) -> check_case c = [].
-Proof. destruct c as [id k]. destruct k as [m caller ep passed|l|l|ok|star l h obs|tp env h obs|star l h signer fwd relay_ok arrived]; intros H.
+(* (the effect observations of the open endpoints have no model: they are judged by the hand-written effect table alone, code 10) *)
+Definition modelled (c : N * c07case) : bool := match snd c with CEffects _ _ _ _ => false | _ => true end.
+Lemma agreement_no_alarm_l c : modelled c = true -> no_code 1%N (check_case c) -> check_case c = [].
+Proof. destruct c as [id k]. destruct k as [m caller ep passed|m caller ep effs|l|l|ok|star l h obs|tp env h obs|star l h signer fwd relay_ok arrived]; intros Hm H; [|discriminate Hm|..].
   - pose proof (auth_agreement_sound_l _ _ _ _ _ H) as [E _]. subst passed. apply auth_model_passes_monitor_l.
   - rewrite check_case_methods in *. apply no1_fail1 in H. rewrite H. reflexivity.
   - rewrite check_case_policy in *. apply no1_fail1 in H. rewrite H. reflexivity.
@@ -456,3 +458,44 @@ Proof. destruct c as [id k]. destruct k as [m caller ep passed|l|l|ok|star l h o
   - rewrite check_case_trustj in *. apply no1_fail1 in H. rewrite H. apply list_eqb_bool_eq in H.
     rewrite (trustj_okb_agree tp env h obs H). reflexivity.
   - pose proof (deliver_agreement_sound_l _ _ _ _ _ _ _ _ H) as E. subst arrived. apply deliver_model_passes_monitor_l. Qed.
+
+(* ================================================================== *)
+(* what the open endpoints do (code 10)                               *)
+(* ================================================================== *)
+(* the hand-written effect table: one row per open endpoint, and no allowed effect drives the IPFS daemon (beyond reading its
+   identity), drives the pin tracker, reads or writes the pinset, writes to consensus other than AddPeer, or runs the informers /
+   publishes metrics *)
+Lemma open_effects_spec_l :
+  map fst open_effects = open_spec /\
+  forallb (fun row => forallb (fun x => negb (effect_forbidden x)) (snd row)) open_effects = true.
+Proof. split; vm_compute; reflexivity. Qed.
+
+Lemma allowed_not_forbidden ep x : In x (allowed_effects ep) -> effect_forbidden x = false.
+Proof. unfold allowed_effects. destruct (find (fun r => String.eqb (fst r) ep) open_effects) as [row|] eqn:F; [|intros []].
+  apply find_some in F. destruct F as [Hin _]. intros Hx. destruct open_effects_spec_l as [_ H]. rewrite forallb_forall in H.
+  specialize (H row Hin). rewrite forallb_forall in H. specialize (H x Hx). now apply negb_true_iff in H. Qed.
+
+Lemma check_case_effects id m caller ep effs : check_case (id, CEffects m caller ep effs) = fail10 id (effects_okb m caller ep effs).
+Proof. reflexivity. Qed.
+
+(* soundness: no code 10 on the effects of a call an untrusted remote caller was let in with => every component call it caused is
+   in the allowed set of that endpoint, hence outside every class the property denies to it; and the endpoint is an open one
+   as soon as anything happened *)
+Lemma effects_monitor_sound_l id m caller ep effs : no_code 10%N (check_case (id, CEffects m caller ep effs)) ->
+  caller <> 0%N -> trust_of m caller = false ->
+  forall x, In x effs -> In x (allowed_effects ep) /\ effect_forbidden x = false /\ In ep open_spec.
+Proof. rewrite check_case_effects. intros H Hc Ht x Hx. unfold fail10 in H.
+  destruct (effects_okb m caller ep effs) eqn:E; [|exfalso; apply (H (id, 10%N, 0%N)); [now left|reflexivity]].
+  unfold effects_okb in E. rewrite Ht in E. destruct (N.eqb_spec caller 0); [contradiction|]. cbn [orb] in E.
+  rewrite forallb_forall in E. specialize (E x Hx). apply mem_str_in in E. split; [exact E|]. split; [now apply (allowed_not_forbidden ep)|].
+  unfold allowed_effects in E. destruct (find (fun r => String.eqb (fst r) ep) open_effects) as [row|] eqn:F; [|destruct E].
+  apply find_some in F. destruct F as [Hin Heq]. apply String.eqb_eq in Heq. subst ep.
+  destruct open_effects_spec_l as [<- _]. now apply in_map. Qed.
+
+(* the monitor accepts exactly the allowed effects (for an untrusted remote caller) *)
+Lemma effects_monitor_complete_l id m caller ep effs : (forall x, In x effs -> In x (allowed_effects ep)) ->
+  check_case (id, CEffects m caller ep effs) = [].
+Proof. intros H. rewrite check_case_effects. unfold fail10, effects_okb.
+  assert (E : forallb (fun x => mem_str x (allowed_effects ep)) effs = true).
+  { apply forallb_forall. intros x Hx. apply mem_str_in. now apply H. }
+  rewrite E, !orb_true_r. reflexivity. Qed.
